@@ -77,6 +77,8 @@ def run_shard(shard, tier, seed, wd, res):
             if k < R and rng.random() < 0.2:
                 # the scalar handed over as a field element (the parameter is generic: S: Into<Repr>)
                 s.op(gp + ".mulfr", Pj, V.r(k))
+                s.op(gp + ".mul_re", Pj, V.RR(k)); s.op(gp + ".amul_re", A, V.RR(k))
+                s.op(gp + ".mul_pre3_re", A, V.RR(k), pre3); s.op(gp + ".mul_pre256_re", A, V.RR(k), pre256)
                 which = rng.randrange(3)
                 s.op(gp + (".amul", ".mul_pre3", ".mul_pre256")[which], A, V.r(k), *([], [pre3], [pre256])[which])
             if k < (1 << 255):
